@@ -3,21 +3,21 @@ C11 — Partial-channel inference; channel joins round-trip.
 
 Model: `ArtModel/Fusion.lean` — `choiceSkip` / `stepPredSkip` / `predictSkip` (a skipped
 channel contributes `1·gamma_k`, `predict` normalises negative indices once),
-`predictRegression` (as written, incl. the double normalisation and the list of centres
-indexed by channel number), `joinRow` / `splitRow`, `prepareRow` / `restoreRow` (as written).
+`predictRegression` (incl. the double normalisation), `joinRow` / `splitRow`,
+`prepareRow` / `restoreRow`.
 
 Proved for every ordered field, every channel layout, every trained weight list `W`, every
 query and every filler:
   * `skip_independent`, `skip_is_argmax_of_rest`, `skip_index_normalised`;
-  * `regression_is_target_centre` (one target channel — the documented use);
-  * `split_join`, `join_split`.
-Two clauses are false of the code as written and therefore of the faithful model:
-  * several target channels: `centers[k]` is read with the channel number instead of the
-    position (finding C11-b): `regression_multi_counterexample`, `regression_multi_as_written`,
-    `regression_multi_partial` (targets sitting at their own positions, e.g. `[0,1]`);
-  * `restore_data` with a skipped channel in front of a kept one indexes the list of kept
-    channels with the channel number (finding C11-a): `restore_prepare_counterexample`,
-    `restore_prepare_partial` (skipped channels form a suffix, e.g. `[-1]`).
+  * `regression_is_target_centre` (one target channel — the documented use) and
+    `regression_multi_is_target_centres` (any list of target channels, positive or negative
+    indices, any order);
+  * `split_join`, `join_split`, `restore_prepare` (any set of skipped channels).
+History: until /repo f0de10c the multi-target branch read `centers[k]` with the channel number
+instead of the position, and until aea0d0b `restore_data` indexed the list of kept channels
+with the channel number (findings C11-b, C11-a of this slice, with `_counterexample` /
+`_partial` theorems); both were repaired, the model follows the repaired code and the former
+counterexamples are now positive examples.
 The inverse law of a single module's `prepare_data` / `restore_data` is C18's; here it is
 the hypothesis `hinv`.
 -/
@@ -78,42 +78,22 @@ theorem regression_is_target_centre (chans : List (Chan α)) (centre : Nat → L
       predictRegression chans centre [t] W x =
         some [centre (normIdx chans.length t).toNat (slice (wlens chans) (normIdx chans.length t).toNat w)] := by
   simp only [predictSkip, List.map_cons, List.map_nil, List.cons.injEq, and_true] at hc
-  have hlt : c < W.length := by
-    have := argmaxNp_lt_length hc
-    simpa using this
-  refine ⟨W[c], List.getElem?_eq_getElem hlt, ?_⟩
-  rw [predictRegression_single chans centre t W x ht c hc, List.getElem?_eq_getElem hlt]
-  rfl
+  obtain ⟨w, hw, h⟩ := predictRegression_eq chans centre [t] W x (by simpa using ht) c hc
+  exact ⟨w, hw, by simpa using h⟩
 
-/-- **Regression, several targets, as written**: the entry for target `k` is taken from
-position `k` of the list of centres, i.e. it is the centre of channel `tn[k]`
-(`tn` = the normalised targets); `none` = the `IndexError` when there is no such position. -/
-theorem regression_multi_as_written (chans : List (Chan α)) (centre : Nat → List α → List α)
-    (targets : List Int) (W : List (List α)) (x : List α) (hl : targets.length ≠ 1)
+/-- **Regression, any list of target channels** (positive or negative indices, any order, any
+number): the `j`-th returned value is the centre of channel `targets[j]` (normalised) of the
+category predicted with all targets skipped. -/
+theorem regression_multi_is_target_centres (chans : List (Chan α)) (centre : Nat → List α → List α)
+    (targets : List Int) (W : List (List α)) (x : List α)
     (hnn : ∀ t ∈ targets, 0 ≤ normIdx chans.length t) (c : Nat)
     (hc : predictSkip chans targets W [x] = [some c]) :
-    predictRegression chans centre targets W x =
-      allSome ((targets.map (normIdx chans.length)).map (fun k =>
-        (((targets.map (normIdx chans.length))[k.toNat]?).bind (fun k' =>
-          (W[c]?).map (fun w => centre k'.toNat (slice (wlens chans) k'.toNat w)))))) := by
+    ∃ w, W[c]? = some w ∧
+      predictRegression chans centre targets W x =
+        some ((targets.map (normIdx chans.length)).map
+          (fun k => centre k.toNat (slice (wlens chans) k.toNat w))) := by
   simp only [predictSkip, List.map_cons, List.map_nil, List.cons.injEq, and_true] at hc
-  exact predictRegression_multi chans centre targets W x hl hnn c hc
-
-/-- **Regression, several targets** — partial: when every target sits at its own position
-in the list (`[0,1]`, `[0,1,2]`, …) the result is the list of target-channel centres of the
-predicted category.  (Full statement — any list of targets — is false of the code, see the
-counterexample.) -/
-theorem regression_multi_partial (chans : List (Chan α)) (centre : Nat → List α → List α)
-    (targets : List Int) (W : List (List α)) (x : List α) (hl : targets.length ≠ 1)
-    (hnn : ∀ t ∈ targets, 0 ≤ normIdx chans.length t)
-    (hpos : ∀ k ∈ targets.map (normIdx chans.length),
-      (targets.map (normIdx chans.length))[k.toNat]? = some k)
-    (c : Nat) (hc : predictSkip chans targets W [x] = [some c]) :
-    predictRegression chans centre targets W x =
-      (W[c]?).map (fun w => (targets.map (normIdx chans.length)).map
-        (fun k => centre k.toNat (slice (wlens chans) k.toNat w))) := by
-  simp only [predictSkip, List.map_cons, List.map_nil, List.cons.injEq, and_true] at hc
-  exact predictRegression_multi_pos chans centre targets W x hl hnn hpos c hc
+  exact predictRegression_eq chans centre targets W x hnn c hc
 
 end Core
 
@@ -135,22 +115,22 @@ theorem join_split (filler : β) (skip : Nat → Bool) (ws : List Nat) (v : List
   ⟨join_split_from filler skip 0 ws v,
    fun j hj => slice_maskFrom filler skip 0 ws v hv j (by simpa using hj)⟩
 
-/-- **restore ∘ prepare** — partial: when the skipped channels are the last ones (`m` kept
-channels in front), every module's `restore_data` inverts its `prepare_data` (`hinv`, C18) and
-prepared rows have the channel width, the supplied channels come back.  (Full statement —
-any skipped subset — is false of the code, see the counterexample.) -/
-theorem restore_prepare_partial (prep rest : Nat → List β → List β) (ws : List Nat) (skip : Nat → Bool)
-    (filler : β) (data : List (List β)) (m : Nat) (hm : m ≤ ws.length) (hd : data.length = ws.length)
-    (hskip : ∀ i, i < ws.length → skip i = decide (m ≤ i))
-    (hwid : ∀ i, i < m → (prep i (data.getD i [])).length = ws.getD i 0)
-    (hinv : ∀ i, i < m → rest i (prep i (data.getD i [])) = data.getD i []) :
+/-- **restore ∘ prepare = id on the supplied channels**, for ANY set of skipped channels: when
+every kept module's `restore_data` inverts its `prepare_data` (`hinv`, C18) and prepared rows
+have the channel width, `restore_data(prepare_data(data, skip), skip)` returns the supplied
+channels in order (`data` has one entry per channel). -/
+theorem restore_prepare (prep rest : Nat → List β → List β) (ws : List Nat) (skip : Nat → Bool)
+    (filler : β) (data : List (List β)) (hd : data.length = ws.length)
+    (hwid : ∀ i, i < ws.length → skip i = false → (prep i (data.getD i [])).length = ws.getD i 0)
+    (hinv : ∀ i, i < ws.length → skip i = false → rest i (prep i (data.getD i [])) = data.getD i []) :
     ∃ v, prepareRow prep ws skip filler data = some v ∧
-      restoreRow rest ws skip v = some ((List.range m).map (fun i => data.getD i [])) :=
-  restore_prepare_suffix prep rest ws skip filler data m hm hd hskip hwid hinv
+      restoreRow rest ws skip v = some ((kept ws.length skip).map (fun i => data.getD i [])) :=
+  restore_prepare_any prep rest ws skip filler data hd hwid hinv
 
 end Join
 
-/-! ### Counterexamples (ℚ, FuzzyART channels alpha = 1/4, beta = 1) and non-vacuity -/
+/-! ### Non-vacuity (ℚ, FuzzyART channels alpha = 1/4, beta = 1); the first two were the
+counterexamples of findings C11-b / C11-a before the repairs -/
 
 private def ch3 : List (Chan Rat) :=
   [⟨fuzzyKernel (1/4) 1 1, 2, 1/2, 2⟩, ⟨fuzzyKernel (1/4) 1 1, 2, 1/4, 2⟩, ⟨fuzzyKernel (1/4) 1 1, 2, 1/4, 2⟩]
@@ -158,40 +138,29 @@ private def W3 : List (List Rat) :=
   [[0, 1, 0, 1, 0, 1], [1, 0, 1, 0, 1, 0], [1/4, 3/4, 1/2, 1/2, 3/4, 1/4]]
 private def cen : Nat → List Rat → List Rat := fun _ => fuzzyCentre
 private def q3 : List Rat := [1/4, 3/4, 1/2, 1/2, 3/4, 1/4]
-
-/-- **Counterexample (finding C11-b).**  Three channels, query = the third category.  Targets
-`[1, 0]`: the code returns channel 0's centre `[1/4]` first and channel 1's centre `[1/2]`
-second (it should be the other way round); targets `[1, 2]`: `IndexError`. -/
-theorem regression_multi_counterexample :
-    predictRegression ch3 cen [1, 0] W3 q3 = some [[1/4], [1/2]] ∧
-    (channelCentres ch3 cen W3 1)[2]? = some [1/2] ∧ (channelCentres ch3 cen W3 0)[2]? = some [1/4] ∧
-    predictRegression ch3 cen [1, 2] W3 q3 = none := by
-  decide +kernel
-
 private def ccR (v : List Rat) : List Rat := v ++ vcompl v
 
-/-- **Counterexample (finding C11-a).**  Two Fuzzy channels, channel 0 skipped: `prepare_data`
-works, `restore_data` on its result raises `IndexError` (`none`) instead of returning `[[1/2]]`. -/
-theorem restore_prepare_counterexample :
-    prepareRow (fun _ => ccR) [2, 2] (skipSet 2 [0]) (1/2 : Rat) [[], [1/2]] = some [1/2, 1/2, 1/2, 1/2] ∧
-    restoreRow (fun _ => fuzzyCentre) [2, 2] (skipSet 2 [0]) ([1/2, 1/2, 1/2, 1/2] : List Rat) = none ∧
-    fuzzyCentre (ccR [1/2]) = [1/2] := by
+-- targets [1, 0]: channel 1's centre first, then channel 0's; [1, 2], [0, 2], [-1, -2] work
+example : predictRegression ch3 cen [1, 0] W3 q3 = some [[1/2], [1/4]] := by decide +kernel
+example : predictRegression ch3 cen [1, 2] W3 q3 = some [[1/2], [3/4]] := by decide +kernel
+example : predictRegression ch3 cen [0, 2] W3 q3 = some [[1/4], [3/4]] := by decide +kernel
+example : predictRegression ch3 cen [-1, -2] W3 q3 = some [[3/4], [1/2]] := by decide +kernel
+-- channel 0 skipped (not a suffix): prepare then restore returns the supplied channel
+example : prepareRow (fun _ => ccR) [2, 2] (skipSet 2 [0]) (1/2 : Rat) [[], [1/2]] = some [1/2, 1/2, 1/2, 1/2] ∧
+    restoreRow (fun _ => fuzzyCentre) [2, 2] (skipSet 2 [0]) ([1/2, 1/2, 1/2, 1/2] : List Rat) = some [[1/2]] := by
   decide +kernel
-
+-- middle channel skipped
+example : (prepareRow (fun _ => ccR) [2, 2, 2] (skipSet 3 [1]) (1/2 : Rat) [[1/4], [], [3/4]]).bind
+    (restoreRow (fun _ => fuzzyCentre) [2, 2, 2] (skipSet 3 [1])) = some [[1/4], [3/4]] := by decide +kernel
 -- skipping the last channel with index -1 or 2, any filler: same category, the third one
 example : predictSkip ch3 [-1] W3 [[1/4, 3/4, 1/2, 1/2, 1/2, 1/2]] = [some 2] := by decide +kernel
 example : predictSkip ch3 [2] W3 [[1/4, 3/4, 1/2, 1/2, 0, 1]] = [some 2] := by decide +kernel
 -- regression on the last channel (the default `target_channels=[-1]`)
 example : predictRegression ch3 cen [-1] W3 q3 = some [[3/4]] := by decide +kernel
--- two targets at their own positions are right
-example : predictRegression ch3 cen [0, 1] W3 q3 = some [[1/4], [1/2]] := by decide +kernel
 -- join / split with the middle channel skipped
 example : joinRow [2, 2, 2] (skipSet 3 [1]) (1/2 : Rat) [[0, 1], [1/4, 3/4]] = some [0, 1, 1/2, 1/2, 1/4, 3/4] := by
   decide +kernel
 example : splitRow [2, 2, 2] (skipSet 3 [-2]) ([0, 1, 1/2, 1/2, 1/4, 3/4] : List Rat) = [[0, 1], [1/4, 3/4]] := by
   decide +kernel
--- prepare / restore with the last channel skipped
-example : (prepareRow (fun _ => ccR) [2, 2] (skipSet 2 [-1]) (1/2 : Rat) [[1/4], []]).bind
-    (restoreRow (fun _ => fuzzyCentre) [2, 2] (skipSet 2 [-1])) = some [[1/4]] := by decide +kernel
 
 end Art.C11
